@@ -59,7 +59,7 @@ func (c17) Info() core.Info {
 			"lists and byte slices returned earlier must keep their contents whatever is done to the accumulator afterwards (independent copies)",
 			"only slice-level independence of Packets() is demanded",
 		},
-		RequiredProbes: []string{"reserved_afc_packet", "pusi_without_payload", "held_results_checked", "second_pusi_restart", "refused_before_start", "write_after_done", "pred_err", "nopayload_packet", "reset_mid", "buffer_reused", "scribbled", "done_at_first_packet", "empty_payload_packet", "af_overrun_packet"},
+		RequiredProbes: []string{"very_long_unit", "reserved_afc_packet", "pusi_without_payload", "held_results_checked", "second_pusi_restart", "refused_before_start", "write_after_done", "pred_err", "nopayload_packet", "reset_mid", "buffer_reused", "scribbled", "done_at_first_packet", "empty_payload_packet", "af_overrun_packet"},
 	}
 }
 
@@ -185,6 +185,15 @@ func (c17) Gen(r *core.Rand, tier string) interface{} {
 	if tier == "thorough" && r.Chance(1, 8) {
 		n = r.Pick(100, 200, 400)
 	}
+	if r.Chance(1, 4000) {
+		// one unit of more than 1 MiB: limits that only large sizes reach
+		s.Pred = PredSpec{Kind: "never"}
+		s.Ops = append(s.Ops, C17Op{Op: "write", Class: "pay", PUSI: true, Ser: 0})
+		for i := 1; i < 6200; i++ {
+			s.Ops = append(s.Ops, C17Op{Op: "write", Class: "pay", Ser: i})
+		}
+		return s
+	}
 	// most histories start a unit early so that they make progress
 	for i := 0; i < n; i++ {
 		op := c17GenOp(r, i, true)
@@ -268,7 +277,14 @@ func (p *c17Pred) eval(b []byte) (bool, error) {
 }
 
 func (p *c17Pred) f(b []byte) (bool, error) {
-	if p.expect != nil && !bytes.Equal(b, *p.expect) {
+	same := false
+	if p.expect != nil && len(b) > 100000 && len(b) == len(*p.expect) {
+		// very long units: compare the tail only here (the full comparison happens in check())
+		same = bytes.Equal(b[len(b)-256:], (*p.expect)[len(b)-256:])
+	} else if p.expect != nil {
+		same = bytes.Equal(b, *p.expect)
+	}
+	if p.expect != nil && !same {
 		p.bad = fmt.Sprintf("predicate shown %d bytes, accumulated payload is %d bytes", len(b), len(*p.expect))
 	}
 	d, err := p.eval(b)
@@ -298,6 +314,25 @@ func (c17) Exec(script interface{}, c *core.Ctx) {
 	acc := packet.NewAccumulator(pred.f)
 	var shadow packet.Accumulator
 	var spred *c17Pred
+	// a bystander: another accumulator alive in the same process (one per PID is the normal
+	// way to demultiplex); whatever happens to the accumulator under test must not show there
+	byPkt, byPay, _ := c17Packet(C17Op{Op: "write", Class: "pay", PUSI: true, Ser: 7777})
+	bystander := packet.NewAccumulator(func([]byte) (bool, error) { return false, nil })
+	if !c.Call("Accumulator.WritePacket(bystander)", func() { bystander.WritePacket(&byPkt) }) {
+		return
+	}
+	checkBystander := func() bool {
+		var b []byte
+		var ps []*packet.Packet
+		if !c.Call("Accumulator.Bytes/Packets(bystander)", func() { b = bystander.Bytes(); ps = bystander.Packets() }) {
+			return false
+		}
+		if !bytes.Equal(b, byPay) || len(ps) != 1 || ps[0] == nil || *ps[0] != byPkt {
+			c.Fail("accumulators_independent", "another_accumulator_changed", fmt.Sprintf("%d bytes, %d packets", len(b), len(ps)), "its own single packet")
+			return false
+		}
+		return true
+	}
 	var callerBuf packet.Packet
 	var lastBytes []byte
 	var lastPkts []*packet.Packet
@@ -394,6 +429,10 @@ func (c17) Exec(script interface{}, c *core.Ctx) {
 		return true
 	}
 
+	long := len(s.Ops) > 1500
+	if long {
+		c.Probe("very_long_unit")
+	}
 	for i, op := range s.Ops {
 		c.SetStep(i)
 		switch op.Op {
@@ -562,8 +601,16 @@ func (c17) Exec(script interface{}, c *core.Ctx) {
 			}
 			c.Log("write class=%s pusi=%t -> %s state=%d len=%d", op.Class, op.PUSI, e.kind, state, len(mbuf))
 		}
+		if long && i%997 != 0 && i != len(s.Ops)-1 {
+			continue // a full comparison after every one of thousands of writes would be quadratic
+		}
 		if !checkHeld() {
 			return
+		}
+		if i%4 == 0 || i == len(s.Ops)-1 {
+			if !checkBystander() {
+				return
+			}
 		}
 		if !check(acc, "") {
 			return
@@ -608,6 +655,9 @@ func (c17) Shrink(script interface{}) []interface{} {
 		out = append(out, n)
 	}
 	for i, op := range s.Ops {
+		if len(s.Ops) > 200 {
+			break // per-operation simplification only once the history is short
+		}
 		if op.Op == "write" && op.Class != "pay" {
 			n := cp()
 			n.Ops[i].Class = "pay"
